@@ -24,6 +24,20 @@ def literal_value(value: Any) -> str:
         return str(value) if math.isfinite(value) else f'float("{value}")'
 
     if isinstance(value, QName):
-        return f'QName("{value.text}")'
+        return f"QName({double_quoted(value.text)})"
 
     return repr(value)
+
+
+def double_quoted(text: str) -> str:
+    """Return the text as a double-quoted python string literal."""
+    chars = []
+    for char in text:
+        if char in ('"', "\\"):
+            chars.append("\\" + char)
+        elif char.isprintable():
+            chars.append(char)
+        else:
+            chars.append(char.encode("unicode_escape").decode("ascii"))
+
+    return '"' + "".join(chars) + '"'
